@@ -109,6 +109,22 @@ func (s *Stack) Pop() {
 	}
 }
 
+// hideAbove removes the scopes above the lowest depth ones and returns them for restore.
+// A depth of 0 (unknown) or beyond the current height hides nothing.
+func (s *Stack) hideAbove(depth int) []map[string]any {
+	if depth <= 0 || depth >= len(s.stack) {
+		return nil
+	}
+	hidden := append([]map[string]any(nil), s.stack[depth:]...)
+	s.stack = s.stack[:depth:depth]
+	return hidden
+}
+
+// restore puts back the scopes that hideAbove removed.
+func (s *Stack) restore(hidden []map[string]any) {
+	s.stack = append(s.stack, hidden...)
+}
+
 // Set sets a key in the top-most Stack.
 func (s *Stack) Set(key string, val any) {
 	if len(s.stack) == 0 {
